@@ -125,7 +125,7 @@ def run(ctx):
                 if m:
                     probes.append(m.groups())
                     if m.group(2) != m.group(3):
-                        hits.insert(0, {"engine": engine_name(), "clause": "C10.real_hangup" if "gone" in m.group(1) else "C10.real_poll",
+                        hits.insert(0, {"engine": engine_name(), "clause": "C10.real_hangup" if "gone" in m.group(1) else ("C11.real_interrupt" if "signal" in m.group(1) else "C10.real_poll"),
                                         "known_class": None,
                                         "input": {"situation": m.group(1), "kind": "poll-probe"},
                                         "observed": m.group(3), "expected": m.group(2),
